@@ -1708,6 +1708,8 @@ def _load_record_or_type(
     rectype = getattr(ns.module, munge(rec), None)
     if rectype is None:
         raise ctx.syntax_error(f"Record or type {s} does not exist")
+    if not isinstance(rectype, type):
+        raise ctx.syntax_error(f"Var {s} is not a Record or Type")
 
     if isinstance(v, vec.PersistentVector):
         if issubclass(rectype, (IRecord, IType)):
@@ -1715,14 +1717,22 @@ def _load_record_or_type(
             assert (
                 posfactory is not None
             ), "Record and Type must have positional factories"
-            return posfactory.value(*v)
+            try:
+                return posfactory.value(*v)
+            except TypeError as e:
+                raise ctx.syntax_error(
+                    f"Unable to construct {s} from {len(v)} positional field values"
+                ) from e
         else:
             raise ctx.syntax_error(f"Var {s} is not a Record or Type")
     elif isinstance(v, lmap.PersistentMap):
         if issubclass(rectype, IRecord):
             mapfactory = Var.find_in_ns(ns_sym, sym.symbol(f"map->{rec}"))
             assert mapfactory is not None, "Record must have map factory"
-            return mapfactory.value(v)
+            try:
+                return mapfactory.value(v)
+            except TypeError as e:
+                raise ctx.syntax_error(f"Unable to construct {s} from a map") from e
         else:
             raise ctx.syntax_error(f"Var {s} is not a Record type")
     else:
